@@ -19,8 +19,10 @@ def gen_src(rng):
     out = bytearray()
     for _ in range(n):
         k = rng.random()
-        if k < 0.25:
+        if k < 0.20:
             out += rng.choice([b"a", b"Z", b"0", b"/", b"?", b"#", b"-", b"~", b";", b"@"])
+        elif k < 0.25:
+            out.append(rng.randrange(128))
         elif k < 0.40:
             out += rng.choice([b" ", b"\"", b"<", b"[", b"]", b"^", b"`", b"\\", b"{", b"|", b"\x00", b"\x7f", b"\n", b"\t"])
         elif k < 0.55:
@@ -29,8 +31,14 @@ def gen_src(rng):
             out += b"%"
             m = rng.choice([0, 1, 2, 2, 2, 3])
             for _ in range(m):
-                if rng.random() < 0.75:
+                k2 = rng.random()
+                if k2 < 0.6:
                     out.append(rng.choice(HEXD))
+                elif k2 < 0.8:
+                    out.append(rng.randrange(128))          # any ASCII byte, controls included
+                elif k2 < 0.9:
+                    # neighbours of the hex ranges and their case/bit-folded images
+                    out.append(rng.choice(b"/:@G`g\x10\x19\x1a\x0f\x21\x26\x27\x41\x46\x61\x66"))
                 else:
                     out += rng.choice([b"g", b"G", b"%", b" ", b"z", b"/", "é".encode()])
     # force '%' into the last positions
